@@ -282,13 +282,13 @@ Theorem check_C08_sound c : check_C08 c = true ->
   match c with
   | CHist r steps => forall L o, In (L, o) steps -> step_meaning r L o
   | CCodec ents decoded dpacks => Permutation ents decoded /\ (forall p, In p dpacks <-> In p (map e_pack ents))
-  | CReject _ crashed => crashed = false
+  | CReject f crashed errored => crashed = false /\ (file_fits f = false -> errored = true)
   end.
 Proof.
   destruct c; cbn [check_C08]; intros H.
   - intros L o Hin. rewrite forallb_forall in H. apply step_ok_spec. apply (H (L, o) Hin).
   - apply andb_true_iff in H as [H1 H2]. split; [apply same_multiset_perm; exact H1|apply same_nset_spec; exact H2].
-  - apply negb_true_iff. exact H.
+  - apply andb_true_iff in H as [H1 H2]. apply negb_true_iff in H1. split; [exact H1|]. intros Hf. rewrite Hf in H2. exact H2.
 Qed.
 
 (* the model's own observation of any history satisfies the oracle *)
@@ -308,6 +308,35 @@ Proof.
   - rewrite packs_of_in. apply Hp.
 Qed.
 
+(* DecodeIndex rejects exactly the files with a value above 2^32-1; a load succeeds iff no file to be merged is rejected,
+   and then it is the load of the theorems above *)
+Lemma decode_checked_spec fid f :
+  (file_fits f = true -> decode_checked fid f = Some (decode fid f)) /\ (file_fits f = false -> decode_checked fid f = None).
+Proof. unfold decode_checked. destruct (file_fits f); split; intro H; try reflexivity; discriminate. Qed.
+
+Lemma forallb_false_ex {A} (f : A -> bool) l : forallb f l = false -> exists x, In x l /\ f x = false.
+Proof. induction l as [|x l IH]; cbn [forallb]; [discriminate|]. destruct (f x) eqn:E.
+  - intros H. destruct (IH H) as (y & Hy & Hf). exists y. split; [right; exact Hy|exact Hf].
+  - intros _. exists x. split; [left; reflexivity|exact E].
+Qed.
+
+Lemma load_checked_spec r mi L :
+  (load_checked r mi L = Some (load r mi L) <-> forall fid, In fid (to_load mi L) -> file_fits (content r fid) = true)
+  /\ (load_checked r mi L = None <-> exists fid, In fid (to_load mi L) /\ file_fits (content r fid) = false).
+Proof.
+  unfold load_checked. destruct (forallb (fun fid => file_fits (content r fid)) (to_load mi L)) eqn:E.
+  - pose proof (proj1 (forallb_forall _ _) E) as Ha. split; split.
+    + intros _. exact Ha.
+    + reflexivity.
+    + discriminate.
+    + intros (fid & Hin & Hf). rewrite (Ha fid Hin) in Hf. discriminate.
+  - destruct (forallb_false_ex _ _ E) as (x & Hx & Hf). split; split.
+    + discriminate.
+    + intros H. rewrite (H x Hx) in Hf. discriminate.
+    + intros _. exists x. split; assumption.
+    + reflexivity.
+Qed.
+
 (* ---------- non-vacuity ---------- *)
 Definition exA : ifile := [(1, [(0, 10, 0, 40, 0); (1, 11, 40, 50, 90)]); (2, [(0, 12, 0, 33, 0)])].
 Definition exB : ifile := [(1, [(0, 10, 0, 40, 0)]); (3, [(0, 10, 7, 40, 0); (0, 10, 7, 40, 0)]); (4, [])].
@@ -320,5 +349,6 @@ Example ex_load :
   /\ to_load (run exR [[100]; [100; 101]]) [100; 101; 102] = [102]
   /\ to_load (run exR [[100]; [100; 101]]) [101; 102] = [101; 102]
   /\ length (i_ents (run exR [[100; 101]; [101]])) = 2%nat
-  /\ same_multiset (flat (encode (flat exA ++ flat exB))) (flat exA ++ flat exB) = true.
-Proof. vm_compute. repeat split. Qed.
+  /\ same_multiset (flat (encode (flat exA ++ flat exB))) (flat exA ++ flat exB) = true
+  /\ decode_checked 7 [(1, [(1, 1, 4294967296, 40, 0)])] = None /\ decode_checked 7 [(1, [(1, 1, 4294967295, 40, 0)])] <> None.
+Proof. vm_compute. repeat split. discriminate. Qed.
